@@ -27,6 +27,10 @@ def gen(r, n):
                     sigs=[(1, "TSTP"), (3, "CONT")]))
     scs.append(dict(u=150, period=1, ta=3, grace=0, leak=0.7, dur=6.5, on_term="ignore",
                     sigs=[(0.5, "TSTP"), (1.5, "CONT"), (2, "TSTP"), (3, "CONT")]))
+    # the same machinery under --no-capture (own process group, termination of the whole group)
+    scs.append(dict(u=150, period=1, ta=2, grace=1, leak=0.7, dur=6, on_term="ignore", child=True, sigs=[],
+                    no_capture=True))
+    scs.append(dict(u=150, period=1, ta=1, grace=0, leak=0.7, dur=3.5, on_term="ignore", sigs=[], no_capture=True))
     # terminated at the deadline, then exits with status 0 within the grace period: still a timeout
     scs.append(dict(u=150, period=1, ta=2, grace=2, leak=0.7, dur=6, on_term=("late_ok", 0.5), sigs=[]))
     scs.append(dict(u=150, period=1, ta=1, grace=2, leak=0.7, dur=6, on_term=("late_ok", 0.5), sigs=[],
